@@ -63,7 +63,13 @@ def check_one(mn, m, k, c, eps, U, tol=1e-8):
     def bad(what, obs, exp, known=None):
         out.append({'fn': '%s.%s' % (mn.lower(), what), 'cell': list(c), 'eps': eps.tolist(), 'U': np.asarray(U).tolist(),
                     'observed': np.asarray(obs).tolist(), 'expected': np.asarray(exp).tolist(), 'known_id': known})
-    B0 = m.form_b_mat(c)
+    try:
+        B0 = m.form_b_mat(c)
+        m.epsilon_to_b_old(list(eps), c), m.b_to_epsilon_old(m.epsilon_to_b(list(eps), c), c)
+    except (ValueError, ZeroDivisionError, FloatingPointError, np.linalg.LinAlgError) as e:
+        out.append({'fn': '%s.raised' % mn.lower(), 'cell': list(c), 'eps': eps.tolist(), 'U': np.asarray(U).tolist(),
+                    'observed': '%s: %s' % (type(e).__name__, e), 'expected': 'no exception on a valid cell and a strain <= 0.1', 'known_id': None})
+        return out
     for suffix in ('', '_old'):
         e2b, b2e = getattr(m, 'epsilon_to_b' + suffix), getattr(m, 'b_to_epsilon' + suffix)
         B = e2b(list(eps), c)
